@@ -36,6 +36,8 @@ struct inputs {
 	struct gfs_inputs fs;
 	uint32_t n1, n2;        /* bytes sitting in the buffer before the 1st / 2nd flush */
 	uint8_t attr_flush;     /* call ovni_attr_flush() between the flushes */
+	uint8_t set_rank, add_cpu;   /* C02 metadata obligation: optional protocol calls */
+	int32_t rank, nranks, cpu_index, cpu_phyid;
 };
 V_INPUTS;
 static const struct gfs_inputs *gfs_in(void) { return &IN.fs; }
@@ -126,7 +128,24 @@ harness(void)
 #ifdef COUNT_STEPS
 	fprintf(stderr, "FREE_AT=%d\n", gfs_step);
 #endif
+#ifdef C02_META
+	/* C02: the metadata a conformant program leaves is complete */
+	if (IN.set_rank) ovni_proc_set_rank(IN.rank, IN.nranks);
+	if (IN.add_cpu) { V_ASSUME(IN.cpu_index >= 0 && IN.cpu_phyid >= 0); ovni_add_cpu(IN.cpu_index, IN.cpu_phyid); }
+#endif
 	API(ovni_thread_free());
+#ifdef C02_META
+	{
+		unsigned want = GFS_KEYS_MANDATORY | (IN.set_rank ? (3u << 10) : 0) | (IN.add_cpu ? (1u << 12) : 0);
+#ifdef REPLAY
+		fprintf(stderr, "keys=%x want=%x\n", gfs_ser_keys, want);
+#endif
+		V_ASSERT(gfs_ser_keys == want, "C02: the final stream.json carries exactly the mandatory attributes (version, lib version/commit, part, tid, pid, loom, app_id, require.ovni, finished) plus rank/nranks and loom_cpus iff they were set");
+		V_ASSERT(gfs_ser_finished == 1, "C02: the last metadata written is marked finished");
+		if (IN.set_rank && IN.add_cpu) V_REACH("metadata-with-rank-and-cpus");
+		if (!IN.set_rank && !IN.add_cpu) V_REACH("metadata-minimal");
+	}
+#endif
 	API(ovni_proc_fini());
 
 #ifdef COUNT_STEPS
